@@ -134,7 +134,9 @@ def append_step(pattern, folders, opts, new, focus=None):
                 c.append(mm[i]["folder"] == fi)
                 c.append(eq(eng, mm[i]["size"], size))
                 c.append(eq(eng, mm[i]["offset"], off))
-                if opts.get("crc_at", "sub") != "none" and (opts.get("crc_at") != "folder" or folders[fi] == 1):
+                if en.get("crc_defined", True) is False:
+                    c.append(mm[i]["crc"] is None)      # a member without a CRC stays without one
+                elif opts.get("crc_at", "sub") != "none" and (opts.get("crc_at") != "folder" or folders[fi] == 1):
                     c.append(mm[i]["crc"] is not None)
                     if mm[i]["crc"] is not None:
                         c.append(eq(eng, mm[i]["crc"], en["crc"]))
@@ -309,7 +311,7 @@ def units(tier):
              ("ff", [2], {"times": "none"}), ("fd", [1], {"attrs": "none"}),
              ("fd", [1, 0], {}), ("fdf", [1, 0, 1], {}),
              ("ff", [2], {"crc_at": "none"}), ("fef", [1, 1], {"emptyfile_vector": True}),
-             ("ff", [1, 1], {"packcrc": True, "packcrc_defined": [False, True]})]   # a base without any CRC: after the append the digest vector is partially defined   # a folder without members (what appending a lone directory leaves); above: a foreign base without any mtime / attribute property
+             ("ff", [1, 1], {"packcrc": True, "packcrc_defined": [False, True]}), ("fff", [2, 1], {"digests": "partial"})]   # a base without any CRC: after the append the digest vector is partially defined   # a folder without members (what appending a lone directory leaves); above: a foreign base without any mtime / attribute property
     if tier == "thorough":
         bases += [("fff", [2, 1], {"times": "partial"}), ("fed", [1], {"emptyfile_vector": True}), ("fdff", [2, 1], {}),
                   ("fff", [1, 2], {"packcrc": True}), ("ff", [2], {"omit_numunpack": False})]
